@@ -440,6 +440,10 @@ func fallbackDeriveKey(passphrase []byte, keyLen int) []byte {
 	}
 
 	key := make([]byte, keyLen)
+	if len(passphrase) == 0 {
+		// nothing to stretch (and the modulo below would divide by zero)
+		return key
+	}
 	copy(key, passphrase)
 	for i := len(passphrase); i < keyLen; i++ {
 		key[i] = passphrase[i%len(passphrase)] ^ byte(i)
